@@ -203,7 +203,7 @@ class DynProperty(Property):
 
     def cases(self, tier, rng):
         lines = []
-        per = 45 if tier == "quick" else 6000
+        per = 140 if tier == "quick" else 6000
         for kind in KINDS:
             k = per if not kind.startswith("dummy") else max(6, per // 4)
             for _ in range(k):
